@@ -19,7 +19,9 @@ from .. import common as C
 KINDS = ["obj", "bool", "vecbare", "vecobj", "err"]
 
 # thorough tier: every maximal history of two callers, enumerated in the extracted model
-ENUM_SCOPES = [("obj", "vecbare", "0"), ("vecobj", "err", "1"), ("bool", "vecobj", "0")]
+# (result kinds of the two callers, gzip inside rpc_result, how many of the histories are replayed: the first scope
+# completely, the others every k-th history in enumeration order)
+ENUM_SCOPES = [("obj", "vecbare", "0", "1000000"), ("vecobj", "err", "1", "8000"), ("bool", "vecobj", "0", "8000")]
 
 
 class Sched:
@@ -275,6 +277,9 @@ def evaluate(ctx, prop, scheds, m, mf, stats, tag, hb=None):
             stats["longest_run_of_such_sends"] = max(stats["longest_run_of_such_sends"], int(x.get("bumpmax", 0)))
             stats["lock_probes"] += int(x.get("probes", 0))
             stats["lock_probes_blocked"] += int(x.get("blocked", 0))
+            stats["server_messages_sent_while_a_sender_is_at_wire"] += int(x.get("wiresrv", 0))
+            stats["messages_processed_while_a_caller_is_at_wire"] += int(x.get("wiredeliver", 0))
+            stats["server_seq_nos_with_top_bit_set"] += int(x.get("highseq", 0))
             if x.get("broken") == "true":
                 stats["schedules_where_a_probe_got_past_the_send_lock"] += 1
     return validated, disagreements
@@ -304,11 +309,11 @@ def run_prop(ctx, prop, n_quick, n_thorough):
     pinned = C.V + "/harness/root/cmd/c09/scripts/pinned.script"
     batches = [("pinned", "script", pinned), ("random", "random", str(n_quick if ctx.tier == "quick" else n_thorough))]
     if ctx.tier == "thorough":
-        for (k0, k1, gz) in ENUM_SCOPES:
+        for (k0, k1, gz, lim) in ENUM_SCOPES:
             path = "%s/enum-%s-%s-%s.script" % (ctx.work, k0, k1, gz)
             with open(path, "wb") as f:
                 import subprocess
-                p = subprocess.run(["%s/model_C09" % C.BIN, "enum", k0, k1, gz, "1000000"], stdout=f, stderr=subprocess.PIPE, timeout=1200)
+                p = subprocess.run(["%s/model_C09" % C.BIN, "enum", k0, k1, gz, lim], stdout=f, stderr=subprocess.PIPE, timeout=1200)
             if p.returncode != 0:
                 raise C.BuildError("model enumeration failed: " + p.stderr.decode()[-1000:])
             exhaustive.append(p.stderr.decode().strip())
@@ -327,8 +332,10 @@ def run_prop(ctx, prop, n_quick, n_thorough):
                                 "frames_seen_by_server(index,seq_no,kind,acked)": [[w[0], w[2], w[3], w[4]] for w in s.wire]})
     if not samples:
         samples.append({"note": "no short two-caller schedule in this run", "batches": [b[0] for b in batches]})
+    if stats["messages_processed_while_a_caller_is_at_wire"] == 0 and not ctx.violations:
+        raise C.BuildError("coverage hole: no answer was dispatched while its request's WriteMsg had not returned (harness trouble, no verdict)")
     ahead = stats["clock_regime_ahead1m"] + stats["clock_regime_ahead1h"]
-    if ahead > 0 and stats["schedules_with_2+_consecutive_such_sends"] == 0:
+    if ahead > 0 and stats["schedules_with_2+_consecutive_such_sends"] == 0 and not ctx.violations:
         raise C.BuildError("coverage hole: %d schedules ran with lastMsgID ahead of the wall clock but none had two consecutive "
                            "sends in that regime (harness trouble, no verdict)" % ahead)
     if ctx.tier == "thorough":
@@ -348,6 +355,9 @@ TRUSTED = [
     "the scheduler's notion of 'enabled' = Go semantics of sync.Mutex (free/held), unbuffered channel rendezvous, blocking socket read; "
     "'blocked on the send lock' = no arrival within 40 ms after release from 'prelock' while another sender is inside sendPacket",
     "clock regimes are set by writing MTProto.lastMsgID through reflection (equivalent to one earlier clock reading that far ahead)",
+    "the network write is a scheduling point of its own: MTProto.transport is replaced (reflection) by a wrapper whose WriteMsg forwards "
+    "and then calls the yield hook with point 'wire' (bytes out, WriteMsg not returned); model: the state after the write, CWritten / "
+    "RAckWritten, already holds the table entry - 'wire' and 'written' both map to it (the step between them is a stutter)",
     "coq/extract/C09/driver.ml (label parser, projection printer, two-caller enumerator); the traces are replayed through step2 of "
     "Client/Live.v (the client with the repaired receive loop), keyed, without Warnings channel and handler",
     "loopback TCP delivers bytes in order; goroutine scheduling is fair; the 65 s read deadline and the 60 s pinger never fire "
@@ -355,7 +365,8 @@ TRUSTED = [
 ]
 
 ASSUMPTIONS = [
-    "model granularity: one label = the code between two verifYield points; blocks between yield points are atomic because each "
+    "model granularity: one label = the code between two scheduling points (verifYield points + the network write); the write is the LAST "
+    "externally visible action of its block, so the server can only react to a state the scheduler can hold; blocks are atomic because each "
     "touches shared state only under seqNoMutex or through the mutex-protected tables, and the scheduler never lets two goroutines run "
     "between yields concurrently (one release at a time; a rendezvous releases exactly the two partners)",
     "scheduler fairness and real time-outs are assumed, not modelled; pinger and read deadline are outside the explored histories",
